@@ -93,9 +93,11 @@ def correspondence(scn, res, projections):
     """list of (call index, projection, implementation, model) disagreements"""
     dis = []
     ic, mc = res["calls"], res["model"]
-    if len(ic) != len(mc):
+    if len(ic) != len(mc) and scn.get("skip_corr_from") is None:
         dis.append((min(len(ic), len(mc)), "number-of-calls-completed", str(len(ic)), str(len(mc))))
     for ci, (a, b) in enumerate(zip(ic, mc)):
+        if scn.get("skip_corr_from") is not None and ci >= scn["skip_corr_from"]:
+            break           # calls the model does not cover (a host name that does not resolve): judged by the oracles alone
         if "out" in projections:
             ao, bo = canon_out(a["out"], scn, res), b["out"]
             exp = scn.get("exp") or []
@@ -190,6 +192,26 @@ def oracle_lockstep(scn, res):
     return v
 
 
+def oracle_abor_order(scn, res):
+    """C02 / C12: a cancelled upload - ABOR is sent while the data connection is still open (it is closed after the replies to
+    ABOR). A client that signals end of file first makes an RFC 959 server complete the transfer and answer ABOR with one
+    reply: process_abort then leaves it unread."""
+    v = []
+    for ci, (e, a) in enumerate(zip(scn["exp"], res["calls"])):
+        if a["out"] in ("blocked", "CRASH"):
+            break
+        if e["kind"] != "U" or not e.get("cancelled"):
+            continue
+        si, ri = scn["xfer_map"].get(ci, (None, None))
+        if si is None:
+            continue
+        for d in res["peer"][si]["data"]:
+            if d.get("ri") == ri and d.get("kind") == "recv" and d.get("ended_before_abor"):
+                v.append((ci, "abor/data-connection-ended-before-ABOR",
+                          "the peer saw end of file on the data connection of the cancelled upload before it received ABOR"))
+    return v
+
+
 def oracle_commands(scn, res):
     """C10 / C09: the peer received exactly the prescribed command lines, one line per step"""
     v = []
@@ -249,6 +271,8 @@ def oracle_observers(scn, res):
     for ci, (e, a) in enumerate(zip(scn["exp"], res["calls"])):
         if a["out"] in ("blocked", "CRASH"):
             break
+        if scn.get("reference_valid_until") is not None and ci >= scn["reference_valid_until"]:
+            break           # (the session is out of step by the server's doing: only the model predicts from here)
         call = scn["calls"][ci]
         if call[0] == "+":
             registered.append(call[1])
@@ -463,7 +487,7 @@ def oracle_terminates(scn, res):
     return v
 
 
-ORACLES = dict(lockstep=oracle_lockstep, commands=oracle_commands, state=oracle_state, sockets=oracle_sockets,
+ORACLES = dict(lockstep=oracle_lockstep, abor_order=oracle_abor_order, commands=oracle_commands, state=oracle_state, sockets=oracle_sockets,
                observers=oracle_observers, transfers=oracle_transfers, terminates=oracle_terminates)
 
 
@@ -614,12 +638,30 @@ def fam_observers(rng, n, dist):
                 else:
                     b.remove_observer(rng.choice(pool))
                     dist.add("observer:remove")
-            elif r < 0.75:
+            elif r < 0.68:
                 add_simple(b, rng)
+            elif r < 0.75:
+                # the server writes more replies than it was asked for, in one piece with the answer: each of them is part
+                # of the control channel's transcript - reported when it is received, by whichever call receives it
+                b.simple(rng.choice([b"STAT", b"SYST", b"NOOP"]), None, rng.choice([200, 211, 215]), extra=rng.choice([[299], [200, 226], [226]]))
+                # the calls that follow each read one reply too early: the reference stops predicting here (the observer
+                # oracle is told so), the comparison with the model goes on
+                b.out_of_step_from = len(b.calls)
+                for _ in range(rng.randrange(1, 3)):
+                    add_simple(b, rng)
+                dist.add("observer:unsolicited-replies")
+                break
             elif r < 0.85:
                 b.rename(b"a", b"b", rng.choice([350, 550]))
             else:
                 add_transfer(b, rng, dist, refuse_at=rng.choice([None, None, "setup", "cmd"]))
+        if getattr(b, "out_of_step_from", None) is not None:
+            b.disconnect(rng.random() < 0.5)
+            b.exp[-1]["may_throw"] = True
+            scn = b.scenario()
+            scn["reference_valid_until"] = b.out_of_step_from
+            out.append(scn)
+            continue
         r = rng.random()
         if r < 0.3 and b.connected:
             # the server gives up: the 421 is a reply like any other for the observers
@@ -714,6 +756,21 @@ def fam_downloads(rng, n, dist, thorough=False):
             dist.add("download:size-%d:%s:%s" % (size, style, comp))
         b.disconnect(True)
         out.append(b.scenario())
+    # megabytes on one data connection: still exactly the bytes sent, still ONE flush, after the last byte
+    for size in ([(3 << 20) + 5] if not thorough else [(2 << 20) - 1, 2 << 20, (2 << 20) + 1, (5 << 20) + 4097, (33 << 20) + 1]):
+        b = S.Builder(rng, *rng.choice(ALL_METHODS), type="I")
+        b.connect(login=(b"u", b"p"))
+        blk = bytes(rng.randrange(256) for _ in range(65536))
+        segs = [blk] * (size // 65536) + ([blk[:size % 65536]] if size % 65536 else [])
+        kind = rng.choice(["D", "D", "F"])
+        b.transfer(kind, b"big.bin" if kind == "D" else None, payload_segs=segs, completion=rng.choice(["now", "on_close"]),
+                   cb=rng.choice([None, [False] * 5000]) if kind == "D" else None)
+        b.simple(b"NOOP", None, 200)
+        b.disconnect(True)
+        dist.add("download:size-%d:megabytes" % size)
+        scn = b.scenario()
+        scn["call_timeout"] = 30.0
+        out.append(scn)
     return out
 
 
@@ -856,6 +913,12 @@ def fam_typefault(rng, n, dist):
         b.connected = False
         b.disconnect(False)
         b.exp[-1]["may_throw"] = True
+        if rng.random() < 0.6:
+            # commands given while disconnected: their lines are never written - not now, and not later either (nothing of
+            # them may turn up in front of the first command of the next connection)
+            for _ in range(rng.randrange(1, 3)):
+                b.failing(("S", rng.choice([b"PWD", b"NOOP", b"SYST"]), None), cmds=[])
+            dist.add("typefault:commands-while-disconnected-before-the-next-connect")
         # a new session with the same client object: its login sends TYPE for the type that was never changed
         b.connect(login=(b"u2", b"p2"))
         add_simple(b, rng, 200)
@@ -916,6 +979,26 @@ def fam_uploads(rng, n, dist, thorough=False):
         b.simple(b"NOOP", None, 200)
         b.disconnect(True)
         dist.add("upload:late-slow-reader:%s%s" % (mode, "-rfc2428" if rfc else ""))
+        out.append(b.scenario())
+    # ... and one that leaves the data connection unread for 12 s while a third of a megabyte is queued behind a closed
+    # window (back-pressure is not a dead peer): everything must still arrive, followed by a clean end of file
+    for mode, rfc in ([rng.choice(ALL_METHODS[:2])] if not thorough else ALL_METHODS[:2] + [rng.choice(ALL_METHODS[2:])]):
+        b = S.Builder(rng, mode, rfc, type="I")
+        b.connect(login=(b"u", b"p"))
+        block = bytes(rng.randrange(256) for _ in range(8192))
+        chunks = [block] * 36 + [b"tail-of-the-file"]
+        ci = b.transfer("U", b"stalled.bin", chunks=chunks, upverb=rng.choice("SUA"), cb=None)
+        if ci in b.xfer_map:
+            si, ri = b.xfer_map[ci]
+            b.sessions[si]["reactions"][ri]["data"].update(rcvbuf=16384, read_delay_s=12.0)
+        b.simple(b"NOOP", None, 200)
+        b.disconnect(True)
+        dist.add("upload:reader-stalled-12s:%s%s" % (mode, "-rfc2428" if rfc else ""))
+        scn = b.scenario()
+        scn["sessions"][0]["idle_timeout"] = 30.0        # (the scripted peer waits that long for the next command)
+        scn["call_timeout"] = 25.0
+        out.append(scn)
+        continue
         out.append(b.scenario())
     return out
 
@@ -1054,6 +1137,8 @@ def fam_tls(rng, n, dist):
         mode, rfc = ALL_METHODS[i % 4]
         fault = rng.choice([None, None, "auth-refused", "ctl-handshake", "pbsz", "prot", "data-handshake", "truncate", "truncate",
                             "truncate", "unknown-ca", "unclean-close", "data-rogue-cert", "data-rogue-cert"])
+        if i % 3 == 0:
+            fault = "auth-refused"          # (a third of the family: AUTH TLS refused, each code of the list below in turn)
         verify = "unknown" if fault == "unknown-ca" else ("trusted" if fault == "data-rogue-cert" else rng.choice(["trusted", "trusted", "none"]))
         b = S.Builder(rng, mode, rfc, type=rng.choice("IIA"), tls=True, resume=rng.random() < 0.6,
                       tlsver=rng.choice(["12", "12", "13"]), verify=verify)
@@ -1064,11 +1149,15 @@ def fam_tls(rng, n, dist):
         keep_using = fault in ("ctl-handshake", "unknown-ca") and rng.random() < 0.6
         # "after a positive answer its next bytes are a TLS handshake": 234 is the usual answer, any other 2xx / 3xx is positive too
         ok_auth = rng.choice([234, 234, 234, 200, 232, 334, 299])
-        b.connect(login=login, auth=rng.choice([500, 534, 502, 431, 421 if False else 504]) if fault == "auth-refused" else ok_auth, plan=plan,
+        # every refusal is a refusal, whatever the code: each one of the list turns up (no fallback to another mechanism)
+        AUTH_REFUSALS = [500, 501, 502, 503, 504, 530, 533, 534, 431, 451, 550]
+        b.connect(login=login, auth=AUTH_REFUSALS[(i // 3) % len(AUTH_REFUSALS)] if fault == "auth-refused" else ok_auth, plan=plan,
                   tls_ok=(fault != "ctl-handshake"), tls_close_clean=(fault != "unclean-close"), stay_plain=keep_using)
         dist.add("tls:fault-%s%s" % (fault, "+keeps-using-the-client" if keep_using else ""))
         if fault != "auth-refused":
             dist.add("tls:auth-answered-%d" % ok_auth)
+        else:
+            dist.add("tls:auth-refused-with-%d" % AUTH_REFUSALS[(i // 3) % len(AUTH_REFUSALS)])
         if fault in ("auth-refused", "ctl-handshake", "unknown-ca"):
             if keep_using:
                 # the application ignores the failure and goes on with the same client object: nothing more may be sent
@@ -1189,6 +1278,22 @@ def fam_reconnect(rng, n, dist, tls_share=0.4):
         b.connect(login=(b"u2", b"p2"))
         add_simple(b, rng, 200)
         add_transfer(b, rng, dist, kind=rng.choice(["D", "F"]))
+        if i % 4 == 0:
+            # connect() to a host name that does not resolve, while connected: whatever it does to the connection it had, the
+            # client holds one socket if it reports connected and none otherwise - after the failure, after a disconnect
+            # that follows, after destruction. (Name resolution is outside the protocol model: the comparison with the model
+            # ends here, the oracles go on.)
+            k = len(b.calls)
+            b.add_call(("C", "unresolvable", None), throws=True, check_open=False)
+            if rng.random() < 0.5:
+                b.add_call(("C", "unresolvable", (b"u", b"p")), throws=True, check_open=False)
+            b.add_call(("X", False), open_after=False, may_throw=True, check_open=True)
+            b.connected = False
+            dist.add("reconnect:connect-to-an-unresolvable-name-while-connected")
+            scn = b.scenario()
+            scn["skip_corr_from"] = k
+            out.append(scn)
+            continue
         b.disconnect(True)
         out.append(b.scenario())
     return out
@@ -1449,14 +1554,14 @@ FAMILIES = dict(mixed=lambda rng, n, dist, th: gen_mixed(rng, "quick", dist, n),
 # ---------------------------------------------------------------------------------------------- the checks
 PROPS = {
     # id: families with their share of the scenario budget, correspondence projections, oracles
-    "C02": dict(fam=[("mixed", 5), ("abor", 2), ("refusals", 1), ("tls", 1)], proj=["out", "state", "wire"], oracles=["lockstep"]),
+    "C02": dict(fam=[("mixed", 5), ("abor", 2), ("refusals", 1), ("tls", 1)], proj=["out", "state", "wire"], oracles=["lockstep", "abor_order"]),
     "C09": dict(fam=[("args", 4), ("mixed", 2), ("reconnect", 2)], proj=["out", "wire"], oracles=["commands"]),
     "C10": dict(fam=[("mixed", 6), ("args", 1), ("refusals", 1), ("tls", 2), ("typefault", 1)], proj=["out", "state", "wire"], oracles=["commands", "state"]),
     "C14": dict(fam=[("observers", 5), ("mixed", 2)], proj=["out", "obs"], oracles=["observers", "terminates"], variant="asan"),
     "C03": dict(fam=[("downloads", 6), ("mixed", 1), ("ascii", 1)], proj=["out", "io"], oracles=["transfers"]),
     "C04": dict(fam=[("uploads", 6), ("mixed", 1), ("ascii", 1)], proj=["out", "io", "wire"], oracles=["transfers"]),
     "C07": dict(fam=[("refusals", 6), ("mixed", 1)], proj=["out", "io", "held", "wire"], oracles=["transfers", "sockets", "lockstep"]),
-    "C12": dict(fam=[("cancel", 5), ("mixed", 1), ("uploads", 1)], proj=["out", "io", "wire"], oracles=["transfers", "commands", "lockstep"]),
+    "C12": dict(fam=[("cancel", 5), ("mixed", 1), ("uploads", 1)], proj=["out", "io", "wire"], oracles=["transfers", "commands", "lockstep", "abor_order"]),
     "C17": dict(fam=[("mixed", 3), ("refusals", 1), ("cancel", 1), ("reconnect", 1), ("tls", 1)], proj=["out", "held"], oracles=["sockets"]),
     "C11": dict(fam=[("tls", 6), ("reconnect", 1)], proj=["out", "state", "wire"], oracles=["tls", "commands"], n=(90, 500)),
     "C13": dict(fam=[("reconnect", 6), ("tls", 1)], proj=["out", "state", "held", "wire"], oracles=["state", "sockets", "lockstep", "tls"], n=(120, 600)),
